@@ -248,7 +248,7 @@ static int write_id_table(const sqfs_xattr_writer_t *xwr,
 			return err;
 
 		sqfs_meta_writer_get_position(mw, &block, &offset);
-		if (block != locations[i - 1])
+		if (block != locations[i - 1] && blk->next != NULL)
 			locations[i++] = block;
 	}
 
